@@ -105,7 +105,14 @@ def check_bootstrap(case):
             facts["missing_last"] = missing == [n - 1]
             require(not missing, "eligibility:row-never-drawn",
                     "rows %r never drawn in %d draws over n=%d (miss probability of a uniform sampler %.1e)" % (missing, draws, n, miss), facts)
-    labels = ["n=1" if n == 1 else ("n<=4" if n <= 4 else "n>4"), "eligibility-applied" if elig else "eligibility-skipped",
+    if n >= 64 and draws > 0 and 16 * (15.0 / 16.0) ** draws < 1e-12:
+        # large training sets: every sixteenth of the table is drawn from (a uniform sampler misses one with probability < 1e-12)
+        elig = True
+        blocks = np.bincount((np.array(sorted(drawn)) * 16) // n, minlength=16)
+        require(bool(np.all(blocks > 0)), "eligibility:block-never-drawn",
+                "no row of block(s) %r (sixteenths of the %d training rows) was drawn in %d draws; largest position drawn %d" % (
+                    np.nonzero(blocks == 0)[0].tolist(), n, draws, max(drawn)), facts)
+    labels = ["n=1" if n == 1 else ("n<=4" if n <= 4 else ("n>4" if n < 64 else "n>=64")), "eligibility-applied" if elig else "eligibility-skipped",
               "weights" if w is not None else "no-weights", "n_jobs=%s" % case["n_jobs"], "alpha<1" if alpha < 1 else "alpha>=1", "container:" + cont,
               "zero-weights" if (w is not None and (w == 0).any()) else "no-zero-weight"]
     return Outcome(labels, (n >= 2 and elig) or w is not None)
@@ -171,6 +178,14 @@ def _boot_cases(draw, tier="quick"):
 
 
 @st.composite
+def _large_boot_cases(draw, tier="quick"):
+    # sizes around the limits of 8-, 15-, 16-bit positions and well beyond
+    n = draw(st.sampled_from([127, 128, 129, 255, 256, 257, 1000, 4096, 32767, 32768, 32769, 40000, 50000, 65535, 65536, 65537, 70000]))
+    return dict(n=n, d=1, alpha=draw(st.sampled_from([1.0, 1.0, 0.5])), n_estimators=draw(st.integers(2, 3)) if n > 5000 else draw(st.integers(2, 8)), weights=draw(st.booleans()),
+                n_jobs=None, seed=draw(st.integers(0, 2**31 - 1)), yield_fit=0, base_random_state=None, zero_w=[], container="array", keep_reference=False, verbose=False)
+
+
+@st.composite
 def _agg_cases(draw, tier="quick"):
     base = draw(st.sampled_from(["recording", "linear", "tree"]))
     n = draw(st.integers(3 if base != "recording" else 1, 12))
@@ -187,6 +202,8 @@ def _agg_cases(draw, tier="quick"):
 CLAUSES = [
     Clause("bootstrap", check_bootstrap, strategy=lambda tier: with_sk(with_np(_boot_cases(tier))), quick=700, thorough=12000, quick_shards=12,
            doc="resample size, alignment of (x,y,w), eligibility of every row, base estimator untouched"),
+    Clause("bootstrap-large", check_bootstrap, strategy=lambda tier: _large_boot_cases(tier), quick=96, thorough=1200, quick_shards=8,
+           doc="training sets of 127 .. 70000 rows: sizes, alignment, every sixteenth of the table eligible"),
     Clause("aggregate", check_aggregate, strategy=lambda tier: with_sk(with_np(_agg_cases(tier))), quick=500, thorough=8000, quick_shards=4,
            doc="predict == mean(predict_all); predict_sorted sorted permutation; min <= predict <= max"),
 ]
